@@ -193,6 +193,8 @@ class H:
             acc.violation(f'C08/clock-thread-killed-by-exception/{ck}/{exc}@{site}',
                           {'thread': ck, 'exception': val})
         acc.count('clock_thread_death_checks')
+        acc.count('tasks_that_returned_inf', INF_RETURNS[0])
+        INF_RETURNS[0] = 0
         acc.count('queue_accesses_lock_checked', self.lockmon.checked)
         self.lockmon.checked = 0
         for (meth, caller), n in sorted(self.lockmon.bad.items()):
@@ -281,14 +283,14 @@ class H:
                     step = h._on_wake(rec, clock)
                     if step.get('raise'):
                         raise _excs()[step['raise']]('vf injected')
-                    return step.get('ret')
+                    return _ret(step)
             return Tk()
         if kind == 'fn':
             def vf_task(item, clock):
                 step = h._on_wake(rec, clock)
                 if step.get('raise'):
                     raise _excs()[step['raise']]('vf injected')
-                return step.get('ret')
+                return _ret(step)
             return vf_task
         if kind == 'rout':
             from sc3.base.stream import Routine
@@ -302,7 +304,7 @@ class H:
                     if step.get('ret') is None:
                         return
                     if not _is_num(step['ret']):
-                        yield step['ret']       # not a delta: the routine is not
+                        yield _ret(step)        # not a delta: the routine is not
                         return                  # re-scheduled by the clock
                     inval = yield step['ret']
             return Routine(vf_rout)
@@ -371,8 +373,20 @@ class H:
 # ---------------------------------------------------------------------------
 
 def _is_num(x):
-    # what the clocks take for a delta: a number, not a bool
+    # what the clocks take for a delta: a finite number, not a bool ('INF' in a
+    # plan stands for float('inf') = never)
     return isinstance(x, (int, float)) and not isinstance(x, bool)
+
+
+INF_RETURNS = [0]
+
+
+def _ret(step):
+    r = step.get('ret')
+    if r == 'INF':
+        INF_RETURNS[0] += 1
+        return float('inf')
+    return r
 
 
 def expected_wakes(plan):
@@ -723,7 +737,7 @@ def gen_plan(rng, clocks, p_raise, depth=0):
             return steps
         # the last value is not a delta: None, or something that is not a
         # number for the clocks (a bool is not)
-        st['ret'] = (rng.choice([None] * 8 + ['x', True, False, [0.001]]) if last
+        st['ret'] = (rng.choice([None] * 8 + ['x', True, False, [0.001], 'INF']) if last
                      else rng.choice([0, 0, 0.001, 0.004, 0.01, 0.02]))
         if depth < 2 and rng.random() < 0.25:
             ch = []
@@ -1243,6 +1257,11 @@ def run_clear(spec, acc):
                 for _ in range(3):
                     tie_move_case(h, acc, clock, ck, rng, rnd)
                 same_function_case(h, acc, clock, ck, rng, rnd)
+                inf_return_case(h, acc, clock, ck, rng, rnd)
+                if getattr(h, 'deaths', None) and ck != 'TempoClock':
+                    # a process-wide clock is gone: nothing after this can be judged
+                    h.report_lockmon(acc)
+                    return
             else:
                 vid[0] += 1
                 tempo_hammer_case(h, acc, rng, vid[0])
@@ -1340,6 +1359,31 @@ def tie_move_case(h, acc, clock, ck, rng, rnd):
             return
         acc.violation(f'C08/{what}/{ck}/moved-task-exact-tie',
                       {'history': hist, 'expected': exp, 'got': got, 'round': rnd})
+
+
+def inf_return_case(h, acc, clock, ck, rng, rnd):
+    """A task that returns (a routine that yields) inf is never awakened again -
+    and the clock goes on: with nothing else pending, a task scheduled
+    afterwards is awakened."""
+    h.recs.clear()
+    h.log.events.clear()
+    h.watch.reset()
+    kind = rng.choice(['tk', 'fn', 'rout'])
+    plan = [{'ret': 0.01}, {'ret': 'INF'}] if rng.random() < 0.5 else [{'ret': 'INF'}]
+    a = h.do_sched(clock, 'rel', 0.02, plan, kind, ('thread', 'inf'))
+    time.sleep(0.35)
+    b = h.do_sched(clock, 'rel', 0.02, [{'ret': None}], 'tk', ('thread', 'inf'))
+    time.sleep(0.6 if ck == 'TempoClock' else 0.45)
+    acc.count('inf_return_cases')
+    acc.case(h64(('inf-return', ck, kind, len(plan))), nontrivial=True)
+    starved = h.watch.max_oversleep > 0.25 or h.watch.max_step > 0.05
+    if a['nwakes'] > len(plan):
+        acc.violation(f'C08/woken-too-often/{ck}/after-returning-inf',
+                      {'task': _rec_repr(a), 'wakes': a['nwakes']})
+    elif b['nwakes'] != 1 and not starved:
+        acc.violation(f'C08/not-woken-in-time/{ck}/after-another-task-returned-inf',
+                      {'task_that_returned_inf': _rec_repr(a), 'probe': _rec_repr(b),
+                       'clock_thread_deaths': list(getattr(h, 'deaths', []))[:2]})
 
 
 def same_function_case(h, acc, clock, ck, rng, rnd):
